@@ -514,8 +514,11 @@ class Analyzer(ExprMixin):
             if is_vec(sty):
                 n = 9 ** sty[2]
             complete = n is not None and len(seen) >= n
-            self.finding("case-no-others", f"line {line}: case/select without an 'others' branch"
-                         + ("" if complete else " and incomplete choices"), line)
+            # a case STATEMENT must have an others branch (property C06 wording); a selected signal assignment whose
+            # choices cover the selector type completely is legal VHDL
+            if stmt or not complete:
+                self.finding("case-no-others", f"line {line}: case/select without an 'others' branch"
+                             + ("" if complete else " and incomplete choices"), line)
             self.emit("else:")
             self.ind += 1
             self.emit(f"no_choice('case at line {line}')")
